@@ -1270,6 +1270,8 @@ class C08Session:
         if which == "import":
             from adcgen import import_from_sympy_latex
             texts = [
+                "{V^{i_{\\alpha}j_{\\beta}}_{a_{\\alpha}b_{\\beta}}} {t1^{a_{\\alpha}b_{\\beta}}_{i_{\\alpha}j_{\\beta}}}",
+                "{f^{i_{\\alpha}}_{k3_{\\alpha}}} {X^{a}_{k3_{\\alpha}}} + {f^{i}_{k3}} {X^{a_{\\beta}}_{k3}}",
                 "{V^{ij}_{ab}} {t1^{ab}_{ij}}",
                 "\\frac{{V^{k3l3}_{c3d3}} {t1^{c3d3}_{k3l3}}}{4}",
                 "{f^{i}_{a}} {t2^{a}_{i}} + {V^{jk4}_{ab}} {t1^{ab}_{jk4}}",
@@ -1277,7 +1279,27 @@ class C08Session:
                 "{V^{i5a}_{b5j}} {X^{b5}_{i5}}",
             ]
             e = import_from_sympy_latex(texts[pick % len(texts)])
-            return {"import": str(e.sympy)}
+            out = {"import": str(e.sympy)}
+            # print -> import of a live expression must hand back the very same index objects
+            sl = self._slot({"slot": pick})
+            if sl is not None:
+                from adcgen import Expr
+                try:
+                    back = import_from_sympy_latex(str(Expr(sl["expr"]))).sympy
+                except Exception:  # noqa: BLE001 - the round trip itself is property C18
+                    back = None
+                if back is not None:
+                    orig = {(s_.name,) + self.key_of(s_): s_ for s_ in
+                            sl["expr"].atoms(self.Index)}
+                    for s_ in back.atoms(self.Index):
+                        o = orig.get((s_.name,) + self.key_of(s_))
+                        if o is not None and o is not s_:
+                            self.viol("registry", "R2", f"importing the printed expression "
+                                      f"{sl['expr']} returned a different object for index {s_}")
+                            break
+                    self.probes["roundtrip_identity"] = \
+                        self.probes.get("roundtrip_identity", 0) + 1
+            return out
         return {"skip": True}
 
     def _record_fresh(self, obj, bag, what):
